@@ -34,7 +34,8 @@ HS_CORRUPTIONS = ("none", "no_spaces_status", "nonnumeric_status", "empty_status
                   "trailing_garbage", "truncated_head", "extra_space_status", "accept_nonascii", "duplicate_status")
 FR_CORRUPTIONS = ("none", "rsv", "opcode", "len_2_63", "len_2_64_minus_1", "len_16bit_huge", "truncated_payload", "truncated_header",
                   "truncated_extlen", "masked_garbage", "close_1byte", "close_badcode", "close_badutf8", "ping_long", "cont_idle",
-                  "text_badutf8", "text_truncated_utf8", "random_tail", "zero_bytes", "nested_text")
+                  "text_badutf8", "text_truncated_utf8", "random_tail", "zero_bytes", "nested_text", "frag_text_badutf8_first", "frag_text_badutf8_middle",
+                  "frag_text_split_codepoint")
 
 
 def hs_bytes(rng, corr):
@@ -155,6 +156,12 @@ def fr_bytes(rng, corr):
         return pre + rng.randbytes(rng.randrange(1, 40))
     if corr == "zero_bytes":
         return pre + b"\x00" * rng.randrange(1, 20)
+    if corr == "frag_text_badutf8_first":
+        return pre + R.encode_frame(0, 1, rng.choice((b"ab\xffcd", b"\xc0\xaf", b"x\xed\xa0\x80"))) + R.encode_frame(1, 0, b"tail")
+    if corr == "frag_text_badutf8_middle":
+        return pre + R.encode_frame(0, 1, b"one") + R.encode_frame(0, 0, b"\xc3(") + R.encode_frame(1, 0, b"three")
+    if corr == "frag_text_split_codepoint":
+        return pre + R.encode_frame(0, 1, b"a\xe2\x82") + R.encode_frame(1, 0, b"\xacb") + R.encode_frame(0, 1, b"\xe2\x82") + R.encode_frame(1, 0, b"x")
     if corr == "nested_text":
         return R.encode_frame(0, 1, b"a") + R.encode_frame(1, 1, b"b")
     raise InvalidScenario("corruption")
@@ -332,9 +339,9 @@ def run(sc, choices=None):
         exp, writes, complete = predict(frames, api, False, False, "none")
         rest = data[pos:]
         if complete and not (exp and exp[-1][0] == "exc"):
-            if rest:
-                complete = False  # what follows is an incomplete frame: the next call ends in timeout / connection closed
-            elif end == "eof":
+            # whatever follows the last complete frame is an incomplete frame: nothing of it may be delivered; the next
+            # call ends in the connection-closed exception (end of stream) or only in timeouts (silence)
+            if end == "eof":
                 exp.append(["exc", "WebSocketConnectionClosedException"])
         why = obs_matches(obs, exp, complete)
         if why and not _only_after_close(frames, obs, exp):
